@@ -951,6 +951,18 @@ func init() {
 		lit := "1" + strings.Repeat("0", 340) + ".0"
 		return Val{T: t, S: ite(sx(">=", args[0].S, "0"), lit, sx("-", lit))}
 	}
+	// sync.Mutex as one ghost boolean per function context ("the package's mutex is
+	// held"): Lock sets it, Unlock requires and clears it.
+	intrinsics["(*sync.Mutex).Lock"] = func(x *Exec, st *State, fn *ssa.Function, args []Val, pos token.Pos, resT *types.Tuple) Val {
+		st.cells["$held"] = Val{S: "true"}
+		x.c.note("sync.Mutex is modelled as one ghost flag per function (held()); blocking and fairness are not modelled")
+		return Val{}
+	}
+	intrinsics["(*sync.Mutex).Unlock"] = func(x *Exec, st *State, fn *ssa.Function, args []Val, pos token.Pos, resT *types.Tuple) Val {
+		x.oblige(st, "unlock", pos, x.c.region(st, "$held"), "", nil)
+		st.cells["$held"] = Val{S: "false"}
+		return Val{}
+	}
 	intrinsics["errors.New"] = pureNonNilErr
 	intrinsics["fmt.Errorf"] = pureNonNilErr
 	pureFresh := func(x *Exec, st *State, fn *ssa.Function, args []Val, pos token.Pos, resT *types.Tuple) Val {
